@@ -46,7 +46,7 @@ func findMerge(w *World) *ssa.Function {
 }
 
 func checkC19(w *World, r *Report) {
-	r.Decides = "C19 is decided in its structural part only: (a) in the merge function the leader id and term of the result are overwritten from the update only under update.leader != none and (current.leader == none or update.term > current.term), always together and from the update's own fields; replicas and config-change index only under current.cci < update.cci, together; nothing else of the current view is overwritten and the current view is what is returned; (b) the update method stores merge(entry for u.ShardID, u) under the same key, with the default entry carrying that shard id, under the write lock; the lookup reads under the read lock; the response header copies term and leader from the view of the requested shard; (c) the view map is written only by the update method and every feeder (local events, membership notifications, remote state merge) calls it; (d, thorough tier) on the finite quotient of orderings the extracted merge is order independent, idempotent and never lowers the term, assuming equal terms name equal leaders."
+	r.Decides = "C19 is decided in its structural part only: (a) in the merge function the leader id and term of the result are overwritten from the update only under update.leader != none and (current.leader == none or update.term > current.term), always together and from the update's own fields; replicas and config-change index only under current.cci < update.cci, together; nothing else of the current view is overwritten and the current view is what is returned; (b) the update method stores merge(entry for u.ShardID, u) under the same key, with the default entry carrying that shard id, under the write lock; the lookup reads under the read lock; the response header copies term and leader from the view of the requested shard; (c) the view map is written only by the update method and every feeder (local events, membership notifications, remote state merge) calls it; (d, thorough tier) on the finite quotient of orderings the extracted merge is order independent, idempotent and never lowers the term, assuming equal terms name equal leaders. Also: every feeder feeds on every path, into a value decoded for that message; read-merge-write is one critical section."
 	r.NotDecided = []string{"convergence of the gossip protocol itself and memberlist delivery", "that equal terms name equal leaders (Raft election safety)"}
 	r.Assume = []string{"Raft election safety for (d)"}
 	merge := findMerge(w)
@@ -471,6 +471,13 @@ func c19Feeders(w *World, r *Report) {
 		ob.Site(ci.Pos(), "view update called from "+FnName(ci.Parent())+" with "+arg)
 		// the feeder hands over everything it learnt: the whole converted shard list of the node
 		// host, or the whole shard view of the decoded remote state - not a filtered copy
+		// the feeder feeds on every path: an update that is only made when a channel has room is
+		// lost for the last event of a burst
+		if ci.Parent().Parent() == nil {
+			if p := (&Walk{Barrier: func(x ssa.Instruction) bool { return x == ssa.Instruction(ci) }, Target: isAnyReturn}).Find(entry(ci.Parent())); p != nil {
+				ob.Violate("feeder-conditional@"+FnName(ci.Parent()), ci.Pos(), FnName(ci.Parent())+" can return without having fed the view (the update sits on one branch only): the event it was called for is lost for the view until something else refreshes it", w.PathString(p)...)
+			}
+		}
 		whole := (strings.Contains(arg, "toShardViewList(") && strings.HasSuffix(arg, ".ShardInfoList)")) || strings.HasSuffix(arg, ".ShardView")
 		// a feeder that decodes what it feeds decodes into a value of its own: encoding/json
 		// decodes into existing slice elements and maps without emptying them, and the merge
